@@ -211,6 +211,35 @@ def gen_homogeneous(tier, rng):
             yield 'homogeneous-' + hk + ('-dupnames' if dup else ''), ops
 
 
+def gen_one_kind(tier, rng):
+    """MANY declarations of ONE kind in one scope (more than any block of a block allocator holds), all pairs different, then some
+    re-declarations; the first and the latest declarations are asked again after every hundred, the whole scope at the end."""
+    n = 300 if tier == 'quick' else 1500
+    for kind in ('var', 'field', 'typedecl', 'alias', 'bitfield', 'fundecl', 'primary'):
+        tys = FT if kind == 'fundecl' else AT if kind == 'primary' else PT
+        pairs = [(a, b) for a in BIGNAMES for b in tys]
+        rng.shuffle(pairs)
+        pairs = pairs[:n]
+        ops = ['new']
+        for i, (a, b) in enumerate(pairs):
+            ops.append('decl %s %s %s' % (kind, a, b))
+            if (i + 1) % 100 == 0:
+                ops += ['obs d0', 'obs d1', 'obs d%d' % i, 'probe %s %s' % pairs[0], 'probe %s %s' % (a, b)]
+        for a, b in rng.sample(pairs, 5):
+            ops.append('decl %s %s %s' % (kind, a, b))
+        ops += ['elems', 'obs d0', 'obs d%d' % (len(pairs) - 1), 'probe %s %s' % pairs[0], 'probe %s %s' % pairs[-1]]
+        yield 'many-names-one-kind-' + kind, ops
+
+
+def gen_bulk(tier, rng):
+    """Scale of the homogeneous lists: hundreds (quick) / more than 65 536 (thorough) members added at once after a few observed ones."""
+    sizes = (300, 1000) if tier == 'quick' else (300, 70000)
+    for hk in ('param', 'enum', 'base'):
+        for n in sizes:
+            ops = ['hnew ' + hk, 'hadd N0 P0', 'hfull', 'hadd N2 P1', 'hbulk %d' % n]
+            yield 'homogeneous-%s-bulk' % hk, ops
+
+
 def generate(tier, rng, shape):
     cases = []
     cases += gen_exhaustive(5 if tier == 'quick' else 7, rng)
@@ -219,6 +248,8 @@ def generate(tier, rng, shape):
     cases += gen_many_types(tier, rng)
     cases += gen_many_names(tier, rng)
     cases += gen_homogeneous(tier, rng)
+    cases += gen_one_kind(tier, rng)
+    cases += gen_bulk(tier, rng)
     # a template's (name, type) pair is declared through BOTH template factories, in either order: which of the two makes the first
     # declaration and which the later ones is drawn anew for every declaration (the other declaration kinds have one factory each)
     mixed = []
@@ -396,6 +427,12 @@ def oracle(ops, impl):
         elif w[0] == 'hadd':
             k = hspec.add(w[1], w[2])
             exp = 'h%d size=%d' % (k, hspec.size())
+        elif w[0] == 'hbulk':
+            n = int(w[1])
+            old = hspec.size()
+            pos = ','.join('%d:%d' % (k, old + k) for k in (0, 255, 256, 65535, 65536, n - 1) if k < n)
+            exp = 'bulk size=%d scope=%d arity=%d pos=%s' % (old + n, old + n, old + n, pos)
+            hspec = None                      # (not tracked further: the case ends here)
         elif w[0] == 'hfull':
             exp = hspec.full()
         elif w[0] == 'shape':
@@ -455,6 +492,8 @@ def first_problem(probe, ops, with_addr, shapes=None, stats_out=None):
         return ('statement',) + bad
     for i, op in enumerate(ops):
         ml = model_lines[i] if i < len(model_lines) else '<none>'
+        if op.startswith('hbulk'):
+            continue                          # implementation-only: judged by the statement oracle above
         if op == 'shape':
             if shapes is not None:
                 shapes[0] += 1
